@@ -261,7 +261,7 @@ def r3(ctx, F, rule, sfx):
     val = c01.r4_removal(ctx, F, rule, sfx, cb)
     ip, selfref = c01.clip_scenario(F, cb)
     w = where(cb)
-    ex = [e for e in ip.events if e.callee and e.callee.endswith('geometry::in_sphere_test_exact') and e.body is cb]
+    ex = [e for e in ip.events if e.callee and e.callee.endswith('geometry::in_sphere_test_exact')]
     fl = [e for e in ip.events if e.callee and strip_generics(e.callee).endswith('HalfSpace::clip') and e.body is cb]
     if len(ex) != 1 or len(fl) != 1:
         ctx.bad(rule, 'two-sources' + sfx, 'float filter calls: %d, exact predicate calls: %d' % (len(fl), len(ex)), 'one of each per vertex', w, key_extra='sources:%d:%d' % (len(fl), len(ex)))
@@ -273,7 +273,7 @@ def r3(ctx, F, rule, sfx):
     ctx.check(rule, 'tested-value-is-filter-or-exact' + sfx, ok, repr(val)[:160], 'ite(filter == 0, exact predicate, filter)', w, key_extra='tested')
     g = [c for c in ex[0].guard]
     ok = any(c == tie for c in g)
-    ctx.check(rule, 'exact-predicate-consulted-exactly-on-ties' + sfx, ok, [repr(c)[:80] for c in g][-2:], 'guarded by filter == 0', where(cb, ex[0].line), key_extra='tie-guard')
+    ctx.check(rule, 'exact-predicate-consulted-exactly-on-ties' + sfx, ok, [repr(c)[:80] for c in g][-2:], 'guarded by filter == 0', where(ex[0].body, ex[0].line), key_extra='tie-guard')
     ctx.check(rule, 'filter-applied-to-the-vertex-being-tested' + sfx, repr(fl[0].fargs[0]) == 'newplane' and '.vertices[' in repr(fl[0].fargs[1]) and repr(fl[0].fargs[1]).endswith('.loc'), [repr(a)[-60:] for a in fl[0].fargs], 'p.clip(self.vertices[i].loc)', where(cb, fl[0].line), key_extra='filter-args')
     # filter bound shape
     hn = F.body_by_suffix('half_space::HalfSpace::new')
@@ -321,11 +321,11 @@ def r4(ctx, F, rule, sfx):
     sc = scen.build_scenario(F)
     cb = F.body(sc.clip_path)
     ip, selfref = c01.clip_scenario(F, cb)
-    ex = [e for e in ip.events if e.callee and e.callee.endswith('geometry::in_sphere_test_exact') and e.body is cb]
+    ex = [e for e in ip.events if e.callee and e.callee.endswith('geometry::in_sphere_test_exact')]
     if len(ex) != 1:
         raise AnalysisIncomplete('exact predicate calls in the clip routine: %d' % len(ex))
     e = ex[0]
-    w = where(cb, e.line)
+    w = where(e.body, e.line)
     a = [repr(x) for x in e.fargs]
     il = 'call:voronoi::boundary::SimulationBoundary::iloc(boundary, '
     rlp = 'call:voronoi::half_space::HalfSpace::right_loc('
